@@ -1171,14 +1171,19 @@ def check_iter_typestate(res, prop, cm, roles, m, seg):
     erasing_loops = {}  # container loc -> site of a loop that erases from it
     val = ' '.join(seg.valuation())
     reported = set()
+    loop_no = 0          # loops (that start a new era) seen so far on the path
+    last_erasing = {}    # container loc -> number of the last loop that erases from it
     for e in seg.events:
         k = e[0]
         if k == 'loop':
             lp = e[1]
+            if not getattr(lp, 'pure', False):
+                loop_no += 1
             for it in lp.iters:
                 for x in it.trace:
                     if x[0] == 'call' and x[2] in ('erase', 'clear', 'pop_front', 'pop_back'):
-                        erasing_loops.setdefault(rel(x[1], 0), lp.site)
+                        erasing_loops[rel(x[1], 0)] = lp.site
+                        last_erasing[rel(x[1], 0)] = loop_no
             continue
         if k == 'call' and e[2] in ('erase', 'pop_front', 'pop_back'):
             if len(e[3]) == 1:
@@ -1188,16 +1193,26 @@ def check_iter_typestate(res, prop, cm, roles, m, seg):
             erased.append((e[1], ('*all*',), e[5]))
             continue
         uses = []
+
+        def derefs_now(t, depth=0):
+            # dereferences this access performs; what is inside a loaded value ('ld') was dereferenced when that value was read
+            if not isinstance(t, tuple) or not t or depth > 14:
+                return
+            if t[0] == 'deref' and len(t) > 1:
+                yield t[1]
+            if t[0] == 'ld':
+                return
+            for x in t:
+                if isinstance(x, tuple):
+                    yield from derefs_now(x, depth + 1)
         if k == 'use':
             uses.append((e[1], e[3]))
         elif k == 'rd':
-            for x in lift.subterms(e[1]):
-                if isinstance(x, tuple) and x[0] == 'deref':
-                    uses.append((x[1], e[2]))
+            for it in derefs_now(e[1]):
+                uses.append((it, e[2]))
         elif k == 'wr':
-            for x in lift.subterms(e[1]):
-                if isinstance(x, tuple) and x[0] == 'deref':
-                    uses.append((x[1], e[3]))
+            for it in derefs_now(e[1]):
+                uses.append((it, e[3]))
         for itv, site in uses:
             for cont, ev, esite in erased:
                 if itv == ev and isinstance(itv, tuple):
@@ -1210,7 +1225,8 @@ def check_iter_typestate(res, prop, cm, roles, m, seg):
             # stale iterator from before an erasing loop
             if isinstance(itv, tuple) and itv[0] == 'q' and itv[1] in ('find', 'begin', 'cbegin', 'lower_bound', 'upper_bound') and (itv[4] or 0) < 0:
                 cont = itv[2]
-                if cont in erasing_loops:
+                obtained_after = loop_no - ((-(itv[4] or 0) + 999) // 1000)      # number of loops that had run when the iterator was taken
+                if cont in erasing_loops and last_erasing.get(cont, 0) > obtained_after:
                     key = (show(itv), 'stale')
                     res.ob('R-ITER-TS', ok=False)
                     if key not in reported:
